@@ -12,15 +12,14 @@
  * Why this form (measured): every parameter / state / flag check of the API on a symbolic value forks the heap
  * shape (source created or not, node linked or not); a second API call after such a fork did not finish in 600 s
  * (two registrations with symbolic state OR flags OR keys), fully concrete 4 s.  So the pre-state is built directly:
- * NPRE (0..2) sources made by the real create_src from symbolic keys, linked into the kind's real tree in the one
- * shape the key order allows (-DSHAPE: 0 second key greater = right child, 1 smaller = left child), polled or not
- * according to a symbolic module state.  This is every registry state of that size that the representation
- * invariant (search-tree order under key order, parent links, len) admits; each job re-establishes the invariant
- * for the post-state, so histories of any length that keep at most 2 sources before an operation are covered by
- * induction from the empty registry (job NPRE=0); larger trees are C11's subject together with the comparator
- * contract of c09_cmp.c.
+ * NPRE (0..2) sources made by the real create_src, linked into the kind's real tree in the one shape the key order
+ * allows (-DSHAPE: 0 second key greater = right child, 1 smaller = left child), polled or not according to a
+ * symbolic module state, with arbitrary stored flag words.  Each job re-establishes the representation invariant
+ * (search-tree order under key order, parent links, len) for the post-state, so the jobs chain: histories that keep
+ * at most 2 sources before an operation are covered step by step from the empty registry (job NPRE=0) for the key
+ * classes enumerated; arbitrary key values are the comparator contract of c09_cmp.c, larger trees C11's subject.
  *
- * -DOP: 0 register(k)   k at full width INCLUDING invalid values / NULL, any flag word (also two priorities), any
+ * -DOP: 0 register(k)   k = K2 (any class incl. invalid values) or NULL, any flag word (also two priorities), any
  *                       token count: rejected without trace, EEXIST, or inserted
  *       1 deregister(k) same freedom: rejected, absent, or exactly that source removed (task: always refused)
  *       2 stop          real manage_srcs(mod, ctx, RM, true): everything dropped
@@ -28,8 +27,9 @@
  *       5 one-shot      a present source fired: recv_events() holds a reference and calls
  *                       m_bst_remove(mod->srcs[p->type], p)
  *       6 count         m_mod_src_len with an arbitrary subset of the sources flagged library-internal
- * Symbolic: all keys (pre-state keys inside the order the shape needs), secondary key fields, module state (IDLE /
- * RUNNING / PAUSED / STOPPED), flag words, token count, private descriptor numbers, which source fires. */
+ * Symbolic: secondary key fields (clock id, event masks, task function), module state (IDLE /
+ * RUNNING / PAUSED / STOPPED), flag words, token count, private descriptor numbers.  Per-job constants: the shape,
+ * the identifying values K0, K1, K2 (one job per order class), NULL parameters (-DBAD), which source fires. */
 #include "l1.h"
 #include <structs/bst.c>
 #ifdef VF_NATIVE
@@ -53,6 +53,9 @@ ev_src_t *VF_CREATE_SRC(m_mod_t *mod, m_src_types type, process_cb proc, const v
 #endif
 #ifndef OP
 #define OP 0
+#endif
+#ifndef BAD     /* 0: none; 1: NULL key pointer; 2: NULL path / NULL task function; 3: empty event mask (path registration) */
+#define BAD 0
 #endif
 
 m_ctx_t *vf_the_ctx;
@@ -92,79 +95,90 @@ int m_thpool_add(m_thpool_t *pool, m_thpool_task fn, void *arg) {
 }
 ev_src_t *dummy_proc(ev_src_t *t, m_ctx_t *c, int i, evt_priv_t *e) { (void)c; (void)i; (void)e; return t; }
 
-/* ---- keys: KEY_T, ID (the identifying value as an ordered scalar), VALID (documented precondition) ---- */
+/* ---- keys.  The identifying values are per-job constants K0, K1 (pre-state) and K2 (the operation's key), chosen
+ *      by the spec per order class; everything that does not steer the search stays symbolic (clock id, event
+ *      masks, task function).  Measured: with a symbolic identifying value the comparator's answer is symbolic, the
+ *      node found / the insertion point becomes a symbolic pointer and the destructor chain behind it
+ *      (m_mem_unref -> get_header: pointer arithmetic with a shift read through that pointer) does not finish:
+ *      one deregistration 109 s symex + >9 GB, one registration >160 s + 16 GB; with constant keys 2 s.  All key
+ *      values at full width are quantified in c09_cmp.c. ---- */
+#ifndef K0
+#define K0 5
+#endif
+#ifndef K1
+#define K1 9
+#endif
+#ifndef K2
+#define K2 7
+#endif
+#define KV(i) ((i) == 0 ? (K0) : (i) == 1 ? (K1) : (K2))
 #if KIND == 1
 typedef int key_t_;
-#define ID(k) ((int64_t)*(k))
-#define VALID(k) (*(k) >= 0)
-static void mk_key(key_t_ *k, int i) { (void)i; *k = nondet_int(); }
+#define ID(i) ((int64_t)KV(i))
+#define VALID(i) (KV(i) >= 0)
+static void mk_key(key_t_ *k, int i) { *k = (int)KV(i); }
 static int k_reg(m_mod_t *m, key_t_ *k, m_src_flags f, const void *up) { return m_mod_src_register_fd(m, *k, f, up); }
 static int k_dereg(m_mod_t *m, key_t_ *k) { return m_mod_src_deregister_fd(m, *k); }
-#define NO_NULL_KEY 1
 #elif KIND == 2
 typedef m_src_tmr_t key_t_;
-#define ID(k) ((k)->ns)
-#define VALID(k) ((k)->ns > 0)
-static void mk_key(key_t_ *k, int i) { (void)i; memset(k, 0, sizeof(*k)); k->clock_id = nondet_int(); k->ns = nondet_u64(); }
+#define ID(i) ((uint64_t)KV(i))
+#define VALID(i) (KV(i) > 0)
+static void mk_key(key_t_ *k, int i) { memset(k, 0, sizeof(*k)); k->clock_id = nondet_int(); k->ns = (uint64_t)KV(i); }
 static int k_reg(m_mod_t *m, key_t_ *k, m_src_flags f, const void *up) { return m_mod_src_register_tmr(m, k, f, up); }
 static int k_dereg(m_mod_t *m, key_t_ *k) { return m_mod_src_deregister_tmr(m, k); }
 #elif KIND == 3
 typedef m_src_sgn_t key_t_;
-#define ID(k) ((k)->signo)
-#define VALID(k) ((k)->signo > 0)
-static void mk_key(key_t_ *k, int i) { (void)i; k->signo = nondet_uint(); }
+#define ID(i) ((uint64_t)KV(i))
+#define VALID(i) (KV(i) > 0)
+static void mk_key(key_t_ *k, int i) { k->signo = (unsigned)KV(i); }
 static int k_reg(m_mod_t *m, key_t_ *k, m_src_flags f, const void *up) { return m_mod_src_register_sgn(m, k, f, up); }
 static int k_dereg(m_mod_t *m, key_t_ *k) { return m_mod_src_deregister_sgn(m, k); }
 #elif KIND == 4
 typedef m_src_path_t key_t_;
 static char pbuf[NSLOT][3];
-/* up to two characters, ordered the way strcmp orders them; the operation's path may be NULL or empty */
-#define ID(k) ((unsigned)(unsigned char)(k)->path[0] * 256u + ((k)->path[0] ? (unsigned)(unsigned char)(k)->path[1] : 0u))
-#define VALID(k) ((k)->path != NULL && (k)->path[0] != 0 && (OP == 1 || (k)->events > 0))
+/* K = first character * 256 + second character (0: one-character string; K == 0: empty string, invalid) */
+#define ID(i) ((uint64_t)KV(i))
+#define VALID(i) (KV(i) >= 256)
 static void mk_key(key_t_ *k, int i) {
-    for (int c = 0; c < 2; c++) { int v = nondet_uchar(); pbuf[i][c] = (char)(v < 128 ? v : v - 256); }
-    pbuf[i][2] = 0;
+    pbuf[i][0] = (char)(KV(i) / 256); pbuf[i][1] = (char)(KV(i) % 256); pbuf[i][2] = 0;
     k->path = pbuf[i]; k->events = nondet_uint();
-    if (i < 2) VF_ASSUME(k->events > 0);
-    else if (nondet_bool()) k->path = NULL;
+    VF_ASSUME(k->events > 0);
 }
 static int k_reg(m_mod_t *m, key_t_ *k, m_src_flags f, const void *up) { return m_mod_src_register_path(m, k, f, up); }
 static int k_dereg(m_mod_t *m, key_t_ *k) { return m_mod_src_deregister_path(m, k); }
-#undef ID
-static unsigned path_id(const key_t_ *k) { return k->path == NULL ? 0u : (unsigned)(unsigned char)k->path[0] * 256u + (k->path[0] ? (unsigned)(unsigned char)k->path[1] : 0u); }
-#define ID(k) path_id(k)
 #elif KIND == 5
 typedef m_src_pid_t key_t_;
-#define ID(k) ((int64_t)(k)->pid)
-#define VALID(k) ((k)->pid > 0)
-static void mk_key(key_t_ *k, int i) { (void)i; k->pid = nondet_int(); k->events = nondet_uint(); }
+#define ID(i) ((int64_t)KV(i))
+#define VALID(i) (KV(i) > 0)
+static void mk_key(key_t_ *k, int i) { k->pid = (pid_t)KV(i); k->events = nondet_uint(); }
 static int k_reg(m_mod_t *m, key_t_ *k, m_src_flags f, const void *up) { return m_mod_src_register_pid(m, k, f, up); }
 static int k_dereg(m_mod_t *m, key_t_ *k) { return m_mod_src_deregister_pid(m, k); }
 #elif KIND == 6
 typedef m_src_task_t key_t_;
-#define ID(k) ((int64_t)(k)->tid)
-#define VALID(k) ((OP == 1) || (k)->fn != NULL)
+#define ID(i) ((int64_t)KV(i))
+#define VALID(i) 1
 int task_fn(void *p) { (void)p; return 0; }
-static void mk_key(key_t_ *k, int i) { k->tid = nondet_int(); k->fn = (i < 2 || nondet_bool()) ? task_fn : NULL; }
+int task_fn2(void *p) { (void)p; return 1; }
+static void mk_key(key_t_ *k, int i) { k->tid = (int)KV(i); k->fn = nondet_bool() ? task_fn : task_fn2; }
 static int k_reg(m_mod_t *m, key_t_ *k, m_src_flags f, const void *up) { return m_mod_src_register_task(m, k, f, up); }
 static int k_dereg(m_mod_t *m, key_t_ *k) { return m_mod_src_deregister_task(m, k); }
 #define IS_TASK 1
 #elif KIND == 7
 typedef m_src_thresh_t key_t_;
-/* thresholds of the pre-state and of the operation: -DVF_THR 0 inactivity only (< 2^40 ms), 1 activity only, in half
- * units up to 2^20 (so keys may differ by a fraction).  Ordered scalar = the one non-zero component. */
-#ifndef VF_THR
-#define VF_THR 0
+/* K = inactive_ms, F = activity_freq in half units (so that keys can differ by a fraction); the pair identifies */
+#ifndef F0
+#define F0 0
 #endif
-#if VF_THR == 0
-#define ID(k) ((k)->inactive_ms)
-#define VALID(k) ((k)->inactive_ms > 0)
-static void mk_key(key_t_ *k, int i) { (void)i; k->inactive_ms = nondet_u64(); k->activity_freq = 0.0; VF_ASSUME(k->inactive_ms < (1ull << 40)); }
-#else
-static unsigned half[NSLOT];
-#define ID(k) ((uint64_t)half[(k) - key])
-#define VALID(k) (half[(k) - key] > 0)
+#ifndef F1
+#define F1 0
 #endif
+#ifndef F2
+#define F2 0
+#endif
+#define FV(i) ((i) == 0 ? (F0) : (i) == 1 ? (F1) : (F2))
+#define ID(i) ((uint64_t)KV(i) * (1ull << 22) + (uint64_t)FV(i))     /* ordered like the pair (ms, freq) */
+#define VALID(i) (KV(i) > 0 || FV(i) > 0)
+static void mk_key(key_t_ *k, int i) { k->inactive_ms = (uint64_t)KV(i); k->activity_freq = (double)FV(i) / 2.0; }
 static int k_reg(m_mod_t *m, key_t_ *k, m_src_flags f, const void *up) { return m_mod_src_register_thresh(m, k, f, up); }
 static int k_dereg(m_mod_t *m, key_t_ *k) { return m_mod_src_deregister_thresh(m, k); }
 #else
@@ -172,9 +186,6 @@ static int k_dereg(m_mod_t *m, key_t_ *k) { return m_mod_src_deregister_thresh(m
 #endif
 
 static key_t_ key[NSLOT];           /* 0, 1: pre-state; 2: the operation's key */
-#if KIND == 7 && VF_THR == 1
-static void mk_key(key_t_ *k, int i) { half[i] = nondet_uint(); VF_ASSUME(half[i] <= (1u << 21)); k->inactive_ms = 0; k->activity_freq = (double)half[i] / 2.0; }
-#endif
 static m_src_flags kfl[NSLOT];
 static ev_src_t *src[NSLOT];
 static bst_node *node[2];
@@ -211,7 +222,7 @@ static void walk(bst_node *n, bst_node *parent, int depth) {
     int sl = s ? slot_of(s->userptr) : -1;
     if (sl < 0 || s != src[sl] || s->type != KIND) walk_bad++;
     else {
-        if (walk_n > 0 && walk_n < 4 && walk_slot[walk_n - 1] >= 0 && !(ID(&key[walk_slot[walk_n - 1]]) < ID(&key[sl]))) walk_bad++;
+        if (walk_n > 0 && walk_n < 4 && walk_slot[walk_n - 1] >= 0 && !(ID(walk_slot[walk_n - 1]) < ID(sl))) walk_bad++;
     }
     if (walk_n < 4) walk_slot[walk_n] = sl;
     walk_n++;
@@ -252,9 +263,9 @@ int vf_main(void) {
 
     /* ---- pre-state ---- */
     for (int i = 0; i < NSLOT; i++) mk_key(&key[i], i);
-    for (int i = 0; i < 2; i++) if (i < NPRE) VF_ASSUME(VALID(&key[i]));
+    for (int i = 0; i < 2; i++) if (i < NPRE) VF_ASSUME(VALID(i));
 #if NPRE == 2
-    if (SHAPE == 0) VF_ASSUME(ID(&key[0]) < ID(&key[1])); else VF_ASSUME(ID(&key[0]) > ID(&key[1]));
+    if (SHAPE == 0) VF_ASSUME(ID(0) < ID(1)); else VF_ASSUME(ID(0) > ID(1));
 #endif
     m_bst_t *tree = mod->srcs[KIND];
     for (int i = 0; i < 2; i++) if (i < NPRE) {
@@ -297,19 +308,24 @@ int vf_main(void) {
     /* ================= register(k) ================= */
     kfl[2] = (m_src_flags)(nondet_uint() & (M_SRC_PRIO_LOW | M_SRC_PRIO_NORM | M_SRC_PRIO_HIGH | M_SRC_AUTOFREE | M_SRC_ONESHOT
                                             | M_SRC_FD_AUTOCLOSE | M_SRC_TMR_ABSOLUTE));
-    _Bool null_key = 0;
-#ifndef NO_NULL_KEY
-    null_key = nondet_bool();
-#endif
+    _Bool null_key = BAD == 1;
     unsigned prio = kfl[2] & 7u;
     _Bool prio_ok = prio == 0 || prio == 1 || prio == 2 || prio == 4;
 #if KIND == 1
     prio_ok = prio == 0 || prio == 4;
     fdkey[2] = key[2];
 #endif
-    _Bool valid = !null_key && VALID(&key[2]) && prio_ok && tokens > 0;
+    _Bool extra_invalid = BAD >= 2;
+#if KIND == 4 && BAD == 2
+    key[2].path = NULL;
+#elif KIND == 4 && BAD == 3
+    key[2].events = 0;
+#elif KIND == 6 && BAD == 2
+    key[2].fn = NULL;
+#endif
+    _Bool valid = !null_key && !extra_invalid && VALID(2) && prio_ok && tokens > 0;
     int dup = -1;
-    if (!null_key && VALID(&key[2])) for (int i = 0; i < 2; i++) if (i < NPRE && ID(&key[2]) == ID(&key[i])) dup = i;
+    if (!null_key && !extra_invalid && VALID(2)) for (int i = 0; i < 2; i++) if (i < NPRE && ID(2) == ID(i)) dup = i;
 #if defined(VF_KF_C09_eexist_owner) && KIND == 1
     if (dup >= 0) VF_ASSUME(!(kfl[2] & M_SRC_FD_AUTOCLOSE));      /* known finding: excluded class */
 #endif
@@ -348,13 +364,14 @@ int vf_main(void) {
     VF_CHECK(m_mod_src_len(mod, M_SRC_TYPE_END) == in_set[0] + in_set[1] + in_set[2], "reported count equals the size of the set");
 #elif OP == 1
     /* ================= deregister(k) ================= */
-    _Bool null_key = 0;
-#ifndef NO_NULL_KEY
-    null_key = nondet_bool();
+    _Bool null_key = BAD == 1;
+    _Bool extra_invalid = BAD >= 2;
+#if KIND == 4 && BAD == 2
+    key[2].path = NULL;
 #endif
-    _Bool valid = !null_key && VALID(&key[2]) && tokens > 0;
+    _Bool valid = !null_key && !extra_invalid && VALID(2) && tokens > 0;
     int hit = -1;
-    if (!null_key && VALID(&key[2])) for (int i = 0; i < 2; i++) if (i < NPRE && ID(&key[2]) == ID(&key[i])) hit = i;
+    if (!null_key && !extra_invalid && VALID(2)) for (int i = 0; i < 2; i++) if (i < NPRE && ID(2) == ID(i)) hit = i;
     r = k_dereg(mod, null_key ? NULL : &key[2]);
 #ifdef IS_TASK
     VF_CHECK(r < 0 && (null_key || r == -EPERM), "task sources cannot be deregistered");
@@ -397,7 +414,10 @@ int vf_main(void) {
 #elif OP == 5
     /* ================= a one-shot source fired ================= */
     {
-        int w = (NPRE == 2 && nondet_bool()) ? 1 : 0;
+#ifndef W
+#define W 0
+#endif
+        int w = W;          /* which source fires: per-job constant (keeps the search path concrete) */
         ev_src_t *p = src[w];
         m_mem_ref(p);                                   /* the event keeps the source alive (new_evt) */
         r = m_bst_remove(mod->srcs[p->type], p);        /* ctx.c:recv_events */
